@@ -271,7 +271,8 @@ impl MechTable {
     // Append each value to the corresponding column in the matrix
     for (&col_id, value) in &record.data {
       if let Some((_kind, column_matrix)) = self.data.get_mut(&col_id) {
-        let result = column_matrix.push(value.clone());
+        // the row gets its own copy: the record and the table stay independent
+        let result = column_matrix.push(value.deep_clone());
       } else {
         continue;
       }
